@@ -8,6 +8,7 @@
  "defines": ["VERIF_HALLOC", "CRC_MAXOBJ=64"],
  "thorough_defines": ["CRC_MAXOBJ=1024"],
  "expect_loops": ["CRC32C_Update"],
+ "backend": "cvc5",
  "timeout": 600,
  "assumptions": ["tables initialised (ghost flag g_crc_tables_ok = CRC32C_Init was called); the table facts enter through the lemma contracts crc_ref_byte / crc_ref_word, enforced in crc32c_lemma_* with the tables computed by the real init()",
                  "buffer object size <= CRC_MAXOBJ bytes, every alignment 0..7 inside the object (symbolic object bound only; both loops are closed by loop contracts)"]
